@@ -109,6 +109,7 @@ def run(rep, info, model, tier, seed):
         mod_idx += [off + j for j in range(min(3, len(scs)))]
         off += len(scs)
     mod_res = dict(zip(mod_idx, model.run([simnet.to_sx(flat[i]) for i in mod_idx]))) if model is not None else {}
+    rep.watch_extraction(model, [simnet.to_sx(flat[i]) for i in mod_idx[:40]])
     off = 0
     for kind, scs in allg:
         res = flat_res[off:off + len(scs)]
